@@ -3,6 +3,27 @@ import HapVerif.Drv.Common
 namespace HapVerif.C07
 open HapVerif.Drv
 
-def handle (_args : List String) (_impl : String) : Verdict := bad "C07-not-implemented"
+/-- `hist <ops…>` / `world <ops…>`; impl output: `ok` or problems joined by `,`.
+`ids <link,link,…>`; impl output: the ids the real AddBackendPath handed out, `link=NN,…` -/
+def handle (args : List String) (impl : String) : Verdict :=
+  match args with
+  | "ids" :: [links] =>
+    match parseList (fun s => some s) links with
+    | some ls =>
+      let m := addAll ls
+      let txt := if m.isEmpty then "-" else ",".intercalate (m.map fun p => p.1 ++ "=" ++ toString p.2)
+      let ids := (impl.splitOn ",").filterMap fun kv => (kv.splitOn "=").getLast?
+      { model := txt, agree := txt = impl,
+        oracle := if impl = "-" ∨ ids.eraseDups.length = ids.length then none else some "duplicate-path-id",
+        trivial := ls.length < 2 }
+    | none => bad "parse"
+  | kind :: ops =>
+    if kind = "hist" ∨ kind = "world" then
+      let probs := if impl = "ok" then [] else impl.splitOn ","
+      -- the model's claim (theorems of Props/C07*.lean + the sync model): no problem, ever
+      { model := "ok", agree := impl = "ok" ∨ impl.startsWith "skip", oracle := if impl.startsWith "skip" then none else oracle probs,
+        trivial := ops.length < 3 }
+    else bad "C07"
+  | _ => bad "C07"
 
 end HapVerif.C07
